@@ -14,7 +14,9 @@ run_inproc(tool, argv, stdin_text, cwd)   the real main() in this process: patch
               to its printer, get_search_term) with the outcome class it had
   and ConsolePrinter.critical calls (which failure branch fired).
 run_subproc(tool, argv, stdin_text, cwd)  the same command line as a real process
-                                          (/venv/bin/python -m yamlpath.commands.<tool>, PYTHONPATH = the tree).
+                                          (/venv/bin/python -m yamlpath.commands.<tool>, PYTHONPATH = the tree);
+                                          stdin is a pty when no document is delivered (a user at a terminal, as the
+                                          in-process Tty), a pipe otherwise.
 The `output` and `exit` events are appended by the caller from what reached stdout / the file system and the
 exit status (finish()).
 
